@@ -34,6 +34,13 @@ def wake_scenarios(w):
         calls = [menu(w)[c] for c in combo]
         calls[1] = step.Tag(1, 0)
         out.append(("%s || from: %s" % (" || ".join(c.label for c in calls), WAKE_INIT[0]), WAKE_INIT[1], calls))
+    # reference-pid lock: two taggers of one pid, a tagger of another pid releases in between
+    calls = [step.Tag(1, 0), step.Tag(1, 1), step.Tag(0, 1)]
+    out.append(("%s || from: %s" % (" || ".join(c.label for c in calls), WAKE_INIT[0]), WAKE_INIT[1], calls))
+    # object-pid lock: two deleters of one pid, a deleter of another pid releases in between
+    init = ("a and b share X", {"bind_0": 0, "bind_1": 0, "obj_0": True})
+    calls = [step.Delete(0), step.Delete(0), step.Delete(1)]
+    out.append(("%s || from: %s" % (" || ".join(c.label for c in calls), init[0]), init[1], calls))
     return out
 
 
